@@ -158,8 +158,9 @@ where
         // => self^{-1} = a + s * ((b - a) * s^(-1) mod 2^k)
         // (essentially one step of the Garner's algorithm for recovery from RNS).
 
-        // `s` is odd, so this always exists
-        let m_odd_inv = s.inv_mod2k(k).expect("inverse mod 2^k exists");
+        // `s` is odd, so this always exists, unless `modulus` is zero: then `s` is zero as well,
+        // `maybe_a` is none and so is the result.
+        let m_odd_inv = s.inv_mod2k(k).unwrap_or(Uint::ZERO);
 
         // This part is mod 2^k
         let shifted = Uint::ONE.overflowing_shl(k).unwrap_or(Self::ZERO);
